@@ -11,6 +11,8 @@ import Mathlib.Algebra.BigOperators.Ring.Finset
 import Mathlib.Algebra.BigOperators.Group.Finset.Piecewise
 /-
   Helper lemmas for C07 (and for C06, which reuses the window / period facts).
+  `runUpd` (function-level semantics of an update list) is linked to the executable `applyUpd` in
+  Lemmas/C07Apply.lean / Props/C07Wrap.lean (`applyUpd_eq_runUpd`).
 -/
 namespace SigpyVerif.C07
 open SigpyVerif
